@@ -7,7 +7,7 @@ From Coq Require Import ZArith List String Bool Lia.
 From NadaV.PyMini Require Import PyMini.
 From NadaV.Gen Require GenScalar.
 From NadaV.Model Require Import Rules Corr Mir Surface Trace Compile.
-From NadaV.Proofs Require Import Finite C02Proofs C06Proofs CompileProofs C18Proofs.
+From NadaV.Proofs Require Import Finite C02Proofs C06Proofs CompileProofs C18Proofs ScalarInv.
 Import ListNotations.
 Open Scope string_scope.
 Open Scope Z_scope.
@@ -53,7 +53,6 @@ Proof.
   all: try (destruct x; pm; fin; fail).
 Qed.
 
-Definition roles3 : list (string * Z) := [("this", 0); ("arg_0", 1); ("arg_1", 2)].
 Definition if_taint (tc ta tb : sty) (out : outcome) : Prop :=
   match out with
   | Emit name t roles => roles = roles3 /\ fst t <> MConst /\ (sec tc || sec ta || sec tb = true -> fst t = MSecret)
